@@ -7,3 +7,8 @@ func VerifHarness_C19_O4() { VerifHarness_C09_O2() }
 // C19/O7 — call site: only signatures of the block's round validators are
 // recorded and hence counted towards the trust threshold (same obligation as C09/O1).
 func VerifHarness_C19_O7() { VerifHarness_C09_O1() }
+
+// C19/O8 — call site: a fame decision needs a tally of at least the
+// supermajority of the deciding round's WHOLE validator set, not of the votes
+// that happened to be collected (same obligation as C01/O2a).
+func VerifHarness_C19_O8() { VerifHarness_C01_O2a() }
